@@ -32,6 +32,7 @@ package protocol
 //@   ensures err == nil && mode != 0 ==> 1 <= mode && mode <= 4
 //@   ensures err == nil && mode != 0 && transport == common.PacketTransport ==> r >= 1 && 8 * ((r + int(mode) + 2) / (int(mode) + 3)) + 88 <= mtu
 //@   ensures err == nil && transport == common.StreamTransport ==> r <= 32768 && r >= 1
+//@   ensures err == nil && mtu >= 89 ==> r >= 1
 //@   ensures err == nil && mode != 0 && transport == common.StreamTransport ==> 8 * ((r + int(mode) + 2) / (int(mode) + 3)) <= 65528
 //@
 //@ func maxPaddingSize(mtu int, transport common.TransportProtocol, fragmentSize int, existingPaddingSize int) (r int)
@@ -197,14 +198,20 @@ package protocol
 //@     invariant [C15] old(s.readDeadline.v) != 0 ==> timeC != nil
 //@
 //@ func (t *segmentTree) Remaining() (n int)
-//@   trusted ordered container over google/btree, guarded by its own mutex
+//@   trusted ordered container over google/btree, guarded by its own mutex; sqrem is the ghost room of the send queue
+//@   ensures t == ghost(sq) ==> mathint(n) == ghost(sqrem)
+//@
+//@ func (t *segmentTree) MinSeq() (seq uint32, err error)
+//@   trusted ordered container over google/btree
 //@
 //@ // Insert on the tree identified by ghost rq (the receive queue) appends the
 //@ // segment's sequence number to the ghost log qlog.
 //@ func (t *segmentTree) Insert(seg *segment) (ok bool)
 //@   trusted ordered container over google/btree; the log is ghost state
 //@   requires wfSegMeta(seg)
-//@   modifies ghost(qn), ghost(qlog)
+//@   modifies ghost(qn), ghost(qlog), ghost(sqrem)
+//@   ensures t == ghost(sq) ==> (ok <==> old(ghost(sqrem)) > 0) && ghost(sqrem) == old(ghost(sqrem)) - ite(ok, 1, 0)
+//@   ensures t != ghost(sq) ==> ghost(sqrem) == old(ghost(sqrem))
 //@   ensures ok && t == ghost(rq) ==> ghost(qn) == old(ghost(qn)) + 1 && ghost(qlog)[old(ghost(qn))] == seqOf(seg)
 //@   ensures !(ok && t == ghost(rq)) ==> ghost(qn) == old(ghost(qn))
 //@   ensures forall(j, 0, 4611686018427387904, mathint(j) < old(ghost(qn)) ==> ghost(qlog)[mathint(j)] == old(ghost(qlog))[mathint(j)])
@@ -249,3 +256,30 @@ package protocol
 //@
 //@ struct writers Session.nextRecv = {moveRecvBufToRecvQueue}
 //@   property C13 C02
+//@
+//@ // Fragmentation (C01/C13/C14) and the slot kept free for Close (C03): a chunk of at
+//@ // most 32768 bytes becomes nFragment = ceil(len/fragmentSize) data segments with
+//@ // consecutive sequence numbers, each payload at most fragmentSize and its length
+//@ // field untruncated; the send queue is never filled completely, so that the close
+//@ // request of a later Close() can always be queued behind the data.
+//@ func (s *Session) writeChunk(b []byte) (n int, err error)
+//@   property C03 C01 C13 C14
+//@   mode int
+//@   noframe
+//@   wraps_signed
+//@   requires s != nil && s.sendQueue != nil && s.recvBuf != nil && s.recvQueue != nil && ghost(sq) == s.sendQueue && ghost(rq) != s.sendQueue
+//@   requires 1280 <= s.mtu && s.mtu <= 1500
+//@   ensures err == nil ==> n == len(b) && len(b) <= 32768
+//@   ensures [C03] err == nil ==> ghost(sqrem) >= 1
+//@   ensures [C13 C01] err == nil && len(b) > 0 ==> s.nextSend.v != old(s.nextSend.v) || len(b) == 0
+//@   ensures s.nextRecv.v == old(s.nextRecv.v)
+//@   loop 1:
+//@     invariant s.nextSend.v == old(s.nextSend.v) && s.nextRecv.v == old(s.nextRecv.v) && ghost(sq) == s.sendQueue
+//@     invariant nFragment >= 1 && fragmentSize >= 1 && fragmentSize <= 65535
+//@   loop 2:
+//@     invariant -1 <= i && i <= nFragment - 1 && nFragment >= 1 && fragmentSize >= 1 && fragmentSize <= 65535
+//@     invariant ghost(sqrem) >= 1 + mathint(i) + 1 && ghost(sq) == s.sendQueue && s.nextRecv.v == old(s.nextRecv.v)
+//@     invariant mathint(s.nextSend.v) == (mathint(old(s.nextSend.v)) + mathint(nFragment) - 1 - mathint(i)) % 4294967296
+//@   loop 3:
+//@     invariant ghost(sqrem) >= 1 && s.nextRecv.v == old(s.nextRecv.v)
+//@     invariant mathint(s.nextSend.v) == (mathint(old(s.nextSend.v)) + mathint(nFragment)) % 4294967296
